@@ -21,6 +21,7 @@ type Outcome struct {
 	DelayArg  int  `json:"da,omitempty"`
 	Gate      bool `json:"g,omitempty"`
 	Bar       bool `json:"b,omitempty"`
+	Nest      bool `json:"n,omitempty"` // the function first runs another program's directive to completion (nested directive)
 }
 
 type FnInfo struct {
@@ -320,6 +321,21 @@ func GenScenario(p *Program, r *Rand, exec uint64, tagName string, k int) *Scena
 			if f.Role == "pred" {
 				keep(f.ID, predOutcome(false))
 			}
+		}
+	case "nest":
+		// one or two functions run another directive (of another program) inside
+		// their body; the nested directive succeeds, fails or panics on its own
+		var cand []*Fn
+		for _, f := range fns {
+			if f.Role == "task" || f.Role == "ptask" || f.Role == "pred" {
+				cand = append(cand, f)
+			}
+		}
+		for n := 1 + r.Intn(2); n > 0 && len(cand) > 0; n-- {
+			f := cand[r.Intn(len(cand))]
+			o := s.Out[f.ID]
+			o.Nest = true
+			s.Out[f.ID] = o
 		}
 	case "goexit":
 		// one to three functions kill their goroutine with runtime.Goexit
